@@ -19,6 +19,7 @@ const modPath = "github.com/hashicorp/go-plugin"
 // Prog is the loaded, type-checked program of the working tree (engine E1).
 type Prog struct {
 	fieldsFlattened bool
+	sentinelVars    map[*types.Var]bool
 	fieldNames      map[*types.Var]string
 	Dir             string
 	Fset            *token.FileSet
